@@ -95,8 +95,8 @@ theorem sysUnlink_noNew (fs : Fs) (path : Bytes) : NoNew fs (sysUnlink fs path).
   | missing _ _ => exact NoNew.refl fs
   | err _ => exact NoNew.refl fs
 
-theorem sysRmdir_noNew (fs : Fs) (path : Bytes) : NoNew fs (sysRmdir fs path).1 := by
-  unfold sysRmdir
+theorem sysRmdirCore_noNew (fs : Fs) (path : Bytes) : NoNew fs (sysRmdirCore fs path).1 := by
+  unfold sysRmdirCore
   cases resolve fs path false with
   | found p e =>
     cases e with
@@ -113,6 +113,12 @@ theorem sysRmdir_noNew (fs : Fs) (path : Bytes) : NoNew fs (sysRmdir fs path).1 
   | err _ => exact NoNew.refl fs
 
 /-- File::unlink never leaves anything new behind -/
+
+theorem sysRmdir_noNew (fs : Fs) (path : Bytes) : NoNew fs (sysRmdir fs path).1 := by
+  rcases sysRmdir_cases fs path with h | ⟨e, h⟩
+  · rw [h]; exact sysRmdirCore_noNew fs path
+  · rw [h]; exact NoNew.refl fs
+
 theorem fileUnlink_noNew (fs : Fs) (path : Bytes) : NoNew fs (fileUnlink fs path).1 := by
   unfold fileUnlink; exact sysUnlink_noNew fs path
 
